@@ -55,6 +55,12 @@ CHECKS = {
         note="Trusted: pyvc, z3, the ghost-state argument. Assumed: z3's get_id uniqueness among live terms; solver soundness and well-formed cores; serialisation facts proved in the C11 pack; parse_unsat_core on a listed family of outputs; GIL atomicity of list.append. The native id-collision search is a bounded stand-in reported separately.",
         technique="contracts with ghost id->condition meaning; VCs from the real source AST (pyvc), registry frame condition on the module AST, z3; bounded native history search as labelled stand-in",
     ),
+    "C03": dict(
+        text="Deductive for the test-level links of the chain (the end-to-end theorem is NOT claimed): CallOutput.is_panic_of recognises Panic(k) for EVERY concrete k exactly when k is a configured code (any k if none configured), and nothing else (other errors, other selectors, other lengths); Exec.is_panic_of asks its own frame; is_global_fail_set = own assert-cheatcode failure or some sub-tree's flag, by induction on the call tree (failures at any nesting depth count); the run_test path loop hands every Panic/failure-flag path to the solver exactly once and nothing else (shared with C05); handle_assertion_violation serialises that path's constraints at that moment and submits exactly one solve_end_to_end job with the callback attached; the setUp path selection keeps every error-free path unless the solver proves it infeasible and requires exactly one (16 answer combinations); the verdict chain (C05). One recorded known finding: a Panic whose code is not a constant is dismissed.",
+        ref="DESIGN.md 4/C03 and 12",
+        note="NOT CLAIMED: `PASS without a warning => no admissible input makes the concrete test fail`. That is the (not machine-checked) composition of these contracts with C02/C10 (needs the worklist assumption of SEVM.run), C01 (not claimed), C11, C12, C13, C05. Trusted: pyvc, z3. Assumed: induction on the call tree with arity <= 3; fragments of setup()/run_test.",
+        technique="test-level contracts on the real code (pyvc): classification predicates over symbolic panic codes, induction on the call tree by contract, fragments with callee contracts; composition stated as a lemma with listed assumptions",
+    ),
     "C04": dict(
         text="Deductive for the classification-and-transport chain between the solver's answer and what the user is told (NOT for the end-to-end reproducibility clause): from_result attaches the model parsed from the very output and the validity flag computed from the very output; is_model_valid is true only if the output mentions no f_evm_* abstraction; solve_end_to_end refines an invalid, unrefined sat answer once and returns the refined query's answer; the callback files a model under valid_counterexamples iff its flag says valid and otherwise under invalid_counterexamples with the 'potentially invalid' warning; parse_model_str stores every matched variable under its full name with the value its parser returns and re-raises parse errors; parse_const_value / _parse_halmos_var_match / PotentialModel.__str__ carry the literal's value (listed literal family up to 512 bits).",
         ref="DESIGN.md 4/C04 and 11",
